@@ -25,6 +25,7 @@ def run(ctx):
     import os
     from . import markers
     kf_hits = []
+    markers.corpus_modules(ctx, "c09r", "conversion sites of repaired findings")
     nm, mbad = markers.check_markers(os.path.join(common.VERIF, "corpus", "c09"), known=kf_hits)
     listed = set(x for k in ctx.known_for() for x in k.get("inputs", []))
     for kid, place in kf_hits:
